@@ -400,7 +400,9 @@ func (z *zkDCS) ReleaseLock(path string) {
 		z.logger.Error().Msgf("failed to release lock %s: process is not an owner", fullPath)
 		return
 	}
-	err = z.retryDelete(fullPath, stat.Version)
+	// The delete is not retried: if a reply is lost after the delete took effect, another process may
+	// have re-created the lock node (its version starts at 0 again) and a retry would remove its lock.
+	err = z.conn.Delete(fullPath, stat.Version)
 	if err != nil {
 		z.logger.Error().Err(err).Msgf("failed to delete lock node %s", fullPath)
 	}
